@@ -53,6 +53,11 @@ def resolve_deep(fn, e):
 
 def rule_impl(chk, rel, cls, fn):
     who = '%s.%s' % (cls.name, fn.name)
+    # small helpers of the module (a cast-and-count one-liner, say) are inlined; the methods of the class are the vocabulary and stay calls
+    try:
+        fn = M.inline_helpers(cls, fn, keep=set(M.methods(cls)), module=M.cy(rel))
+    except Exception:
+        pass
     fn = M.counter_loops_as_for(fn)        # a pass over a table written with a counter and `while` is the same pass
     args = M.arg_names(fn)
     if len(args) < 3:
@@ -185,6 +190,62 @@ def rule_tree_count(chk):
     chk.floor('tree builders that fill the id table', n, 2)
 
 
+def rule_tree_leaves(chk):
+    """the id table of a tree (self.pids, read by the leaves and by get_spatially_ordered_indices) is complete when a builder returns: (a) a leaf made by copying its ids to
+    self.pids + self._next_pid advances self._next_pid by the number copied before anything else is placed there; (b) in a builder that writes the table element by element
+    (directly or through a pointer alias of it) every return can only be reached after such writes"""
+    rel = 'pysph/base/octree.pyx'
+    t = M.cy(rel)
+    na = nb = 0
+    for cls in M.classes(t):
+        for name, fn in M.methods(cls).items():
+            who = '%s.%s' % (cls.name, name)
+            M.set_parents(fn)
+            # (a)
+            for c in [c for c in M.calls(fn) if M.call_name(c) == 'copy' and len(c.args) == 3 and compact(c.args[2]) == 'self.pids+self._next_pid']:
+                na += 1
+                src = compact(c.args[0].func.value) if isinstance(c.args[0], ast.Call) and isinstance(c.args[0].func, ast.Attribute) else None
+                st = c
+                while not isinstance(st, ast.stmt):
+                    st = st.parent
+                blk = None
+                for f_ in ('body', 'orelse', 'finalbody'):
+                    if st in (getattr(st.parent, f_, None) or []):
+                        blk = getattr(st.parent, f_)
+                adv = False
+                for nxt in (blk[blk.index(st) + 1:] if blk else []):
+                    if isinstance(nxt, (ast.Continue, ast.Break, ast.Return)):
+                        break
+                    if isinstance(nxt, ast.AugAssign) and isinstance(nxt.op, ast.Add) and compact(nxt.target) == 'self._next_pid' and src is not None and compact(nxt.value) == src + '.size()':
+                        adv = True
+                        break
+                    if any(M.call_name(x) == 'copy' for x in M.calls(nxt)):
+                        break
+                chk.decide(adv, 'ordered-indices', who + ':leaf-ids-claim-their-slots@%d' % c.lineno, node=c, file=rel, func=who,
+                           detail_bad='ids of a leaf are copied to self.pids + self._next_pid but self._next_pid is not advanced by %s.size() before the block is left: the next leaf '
+                                      'overwrites them, so the ordered index list loses these particles and ends in uninitialised entries' % (src or 'the copied list'),
+                           detail_ok='copy; self._next_pid += %s.size()' % src)
+            # (b)
+            alias = set(['self.pids']) | set(compact(a.target if isinstance(a, ast.AnnAssign) else a.targets[0]) for a in ast.walk(fn)
+                                            if isinstance(a, (ast.Assign, ast.AnnAssign)) and a.value is not None and compact(a.value) == 'self.pids')
+            stores = [a for a in ast.walk(fn) if isinstance(a, ast.Assign) and isinstance(a.targets[0], ast.Subscript) and compact(a.targets[0].value) in alias]
+            if not stores:
+                continue
+            nb += 1
+            g = C.build_cfg(fn)
+            sn = [g.node_of(a) for a in stores]
+            sn = [x for x in sn if x is not None]
+            reach = set()
+            for x in sn:
+                reach |= set(g.reachable(x))
+            bad = [n_ for n_ in g.nodes if isinstance(n_.ast, ast.Return) and n_.id not in reach]
+            chk.decide(bool(sn) and not bad, 'ordered-indices', who + ':id-table-written-before-every-return', node=bad[0].ast if bad else fn, file=rel, func=who,
+                       detail_bad='`%s` is reached without the pass that writes the particle ids into the table (%s): the leaves and the ordered index list then read '
+                                  'uninitialised memory' % (U(bad[0].ast) if bad else '', sorted(alias)), detail_ok='every return follows writes to %s' % sorted(alias))
+    chk.floor('leaf copies in the tree builders', na, 2)
+    chk.floor('builders writing the id table element by element', nb, 2)
+
+
 def rule_apply(chk):
     """NNPS.spatially_order_particles and Solver.reorder_particles decided on model runs (E8 interpreter on the lowered Cython / Python syntax trees): a model NNPS with two
     wrapped arrays (the second with four properties, one of them strided and missing from its load-balancing list) records what is permuted with what; a model solver with three
@@ -294,6 +355,7 @@ def main(chk):
     chk.unit('files', files + [NB, SOL])
     rule_apply(chk)
     rule_tree_count(chk)
+    rule_tree_leaves(chk)
     # the re-ordering ends with align_particles(): that it builds a permutation (no particle duplicated or lost) is the rule shared with C16 / C06
     import importlib.util
     spec16 = importlib.util.spec_from_file_location('c16mod', os.path.join(os.path.dirname(os.path.abspath(__file__)), 'c16.py'))
